@@ -214,7 +214,7 @@ def exhaustive(tier):
     # transforms) offered through every ROUTE: whatever the configuration holds afterwards meets the field's constraints
     from . import c05
     for c in c05.exhaustive(tier):
-        if c["spec"]["kind"] in ("str", "loglevel", "int", "float", "port", "host"):
+        if c["spec"]["kind"] in ("str", "loglevel", "int", "float", "port", "host", "url"):
             yield {"mode": "strict-grid", "spec": c["spec"], "value": c["value"]}
 
 
